@@ -98,6 +98,21 @@ class Snap:
             x = self.lister(x)
         return out
 
+    def height(self, h):
+        """Number of levels of the tree below (and including) h; iterative."""
+        best, stack, seen = 0, [(h, 1)], set()
+        while stack:
+            x, d = stack.pop()
+            if x in seen or not isinstance(x, int):
+                continue
+            seen.add(x)
+            if d > best:
+                best = d
+            c = self.cells[x]
+            if c is not None and isinstance(c[CH], tuple):
+                stack.extend((k, d + 1) for k in c[CH])
+        return best
+
     def root_of(self, h):
         a = self.ancestors(h)
         return a[-1] if a else h
